@@ -5,26 +5,30 @@ import JsonC.Lemmas.TokenerXRej4
 namespace JsonC.Tokener
 open JsonC Rfc8259 Rfc8259X
 
-theorem xdoc_rej (lc : Libc) (hl : LibcSpec lc) : ∀ x, XRej lc x := by
+theorem xdoc_rej (lc : Libc) (hl : LibcSpec lc) (hx : LibcSpecX lc) : ∀ x, XRej lc x := by
   intro x
   induction x using xdoc_induct with
   | hlit k caps =>
-    intro t l cur rest hwf hs hv hhs hl0 hst hok _ _ _ hnp c off rs
+    intro t l cur rest hwf hs hv hhs hl0 hst hok _ _ _ hnp nb _ _ c off rs0
+    generalize nb :: rs0 = rs
     simp only [XDoc.ok, beq_iff_eq] at hok
     simp only [XDoc.plain] at hnp
     exact strict_lit_rejected lc t l cur none rest hwf hs hv hst k caps hok hnp c off rs
   | hnum n =>
-    intro t l cur rest _ _ _ _ _ _ _ _ _ _ hnp
-    simp [XDoc.plain] at hnp
+    intro t l cur rest _ hs hv _ _ hst hok _ _ _ hnp nb hnb hnul c off rs
+    exact xnum_rej lc hx t l cur none rest hs hv n (by simpa [XDoc.ok] using hok) hst (by simpa [XDoc.plain] using hnp)
+      nb hnb hnul c off rs
   | hstr q items =>
-    intro t l cur rest hwf hs hv hhs hl0 hst hok _ _ _ hnp c off rs
+    intro t l cur rest hwf hs hv hhs hl0 hst hok _ _ _ hnp nb _ _ c off rs0
+    generalize nb :: rs0 = rs
     cases q with
     | dq =>
       have hbad : items.all StrItem.ok = false := by simpa [XDoc.plain] using hnp
       exact strict_ctl_string_err lc t l hwf hv hhs hst cur none rest hs items (by simpa [XDoc.ok] using hok) hbad c off rs
     | sq => exact sq_value_err lc t l hv hst cur none rest hs c off _
   | harr g es tr ih =>
-    intro t l cur rest hwf hs hv hhs hl0 hst hok hfit hknf hdepth hnp c off rs
+    intro t l cur rest hwf hs hv hhs hl0 hst hok hfit hknf hdepth hnp nb _ _ c off rs0
+    generalize nb :: rs0 = rs
     have h1 := open_array lc t l hv cur none rest hs
     let t1 : Tok := { t with stack := ⟨.eatws, .array, .arr [], none⟩ :: rest }
     have hwf1 : WF t1 := wf_restack hwf hs rfl rfl (topOk_open _ _ (Or.inl ⟨rfl, rfl⟩)) (posOk_of_ne (by simp) (by simp) (by simp))
@@ -52,7 +56,8 @@ theorem xdoc_rej (lc : Libc) (hl : LibcSpec lc) : ∀ x, XRej lc x := by
         (by simpa [XDoc.erase, Doc.intsFit] using hfit) (by simpa [XDoc.erase, Doc.keysNulFree] using hknf)
         (by simpa [XDoc.erase, Doc.nest] using hdepth) tr (by simpa [XDoc.plain] using hnp) 91 (off + 1) rs
   | hobj g ms tr ih =>
-    intro t l cur rest hwf hs hv hhs hl0 hst hok hfit hknf hdepth hnp c off rs
+    intro t l cur rest hwf hs hv hhs hl0 hst hok hfit hknf hdepth hnp nb _ _ c off rs0
+    generalize nb :: rs0 = rs
     have h1 := open_object lc t l hv cur none rest hs
     let t1 : Tok := { t with stack := ⟨.eatws, .objectFieldStart, .obj [], none⟩ :: rest }
     have hwf1 : WF t1 := wf_restack hwf hs rfl rfl (topOk_open _ _ (Or.inr ⟨rfl, rfl⟩)) (posOk_of_ne (by simp) (by simp) (by simp))
@@ -127,7 +132,7 @@ theorem trail_comment_unexpected (lc : Libc) (t : Tok) (l : Loc) (hv : NoVal t) 
       rw [e]; exact slash _ _ _
 
 /-- **top level, strict mode**: a text with at least one extension is rejected -/
-theorem xtop_level_strict (lc : Libc) (hl : LibcSpec lc) (t : Tok) (hwf : WF t) (hst0 : t.stack = [⟨.eatws, .start, .null, none⟩])
+theorem xtop_level_strict (lc : Libc) (hl : LibcSpec lc) (hx : LibcSpecX lc) (t : Tok) (hwf : WF t) (hst0 : t.stack = [⟨.eatws, .start, .null, none⟩])
     (hv : NoVal t) (hhs : t.hs = 0) (hst : t.strict = true) (hat : t.allowTrailing = false) (x : XText) (hok : x.ok = true)
     (hfit : x.doc.erase.intsFit = true) (hknf : x.doc.erase.keysNulFree = true) (hdepth : 1 + x.doc.erase.nest ≤ t.maxDepth)
     (hnp : x.plain = false) :
@@ -143,8 +148,10 @@ theorem xtop_level_strict (lc : Libc) (hl : LibcSpec lc) (t : Tok) (hwf : WF t) 
     rw [gap_plain_text x.lead h1, run_ws lc t {} .start .null none [] hst0 hv x.lead.erase.text (ws_bytes_ws x.lead.erase) 1 0 _]
     cases h2 : x.doc.plain with
     | false =>
-      exact epilogue_errStop _ (xdoc_rej lc hl x.doc t {} .null [] hwf hst0 hv hhs rfl hst hok.1.2 hfit hknf
-        (by simpa using hdepth) h2 _ _ _)
+      obtain ⟨nb, rs, htr, hnb⟩ := xfollow_top x.trail hok.2
+      rw [htr]
+      exact epilogue_errStop _ (xdoc_rej lc hl hx x.doc t {} .null [] hwf hst0 hv hhs rfl hst hok.1.2 hfit hknf
+        (by simpa using hdepth) h2 nb hnb (fun _ => rfl) _ _ _)
     | true =>
       have h3 : x.trail.plain = false := by simpa [XText.plain, h1, h2] using hnp
       obtain ⟨nb, rs', htl, hfol, hnz⟩ := gap_nonplain_head x.trail h3 [0]
